@@ -1,4 +1,4 @@
-From PL Require Import Eval.State.
+From PL Require Import Eval.State Eval.SortProofs.
 From Coq Require Import Permutation.
 Local Open Scope N_scope.
 
@@ -45,11 +45,11 @@ Qed.
 Lemma get_global_spec ms name asking :
   match get_global ms name asking with
   | GOk v => exists mn, visible_in ms name asking = [(mn, v)]
-  | GAmbiguous l => (2 <= List.length (visible_in ms name asking))%nat /\ l = map fst (visible_in ms name asking)
+  | GAmbiguous l => (2 <= List.length (visible_in ms name asking))%nat /\ l = sort_texts (map fst (visible_in ms name asking))
   | GNotFound => visible_in ms name asking = []
   end.
 Proof.
-  unfold get_global. destruct (visible_in ms name asking) as [|[mn v] [|p r]]; cbn.
+  unfold get_global. destruct (visible_in ms name asking) as [|[mn v] [|p r]]; cbn [List.length].
   - reflexivity.
   - exists mn. reflexivity.
   - split; [lia|reflexivity].
@@ -65,24 +65,27 @@ Proof.
   - eapply Permutation_trans; eassumption.
 Qed.
 
-(* the outcome does not depend on the order of the module table (hash order / load order),
-   except for the order in which an ambiguity lists the modules *)
-Lemma get_global_perm ms ms' name asking : Permutation ms ms' ->
-  match get_global ms name asking, get_global ms' name asking with
-  | GOk v, GOk v' => v = v'
-  | GAmbiguous l, GAmbiguous l' => Permutation l l'
-  | GNotFound, GNotFound => True
-  | _, _ => False
-  end.
+(* the outcome does not depend on the order of the module table (hash order / load order) at all *)
+Lemma get_global_perm ms ms' name asking : Permutation ms ms' -> get_global ms name asking = get_global ms' name asking.
 Proof.
   intros Hp. pose proof (visible_in_perm ms ms' name asking Hp) as Hv.
   unfold get_global.
   destruct (visible_in ms name asking) as [|[mn v] [|p r]] eqn:E1.
-  - apply Permutation_nil in Hv. rewrite Hv. exact I.
+  - apply Permutation_nil in Hv. rewrite Hv. reflexivity.
   - apply Permutation_length_1_inv in Hv. rewrite Hv. reflexivity.
   - pose proof (Permutation_length Hv) as Hl.
     destruct (visible_in ms' name asking) as [|[mn' v'] [|p' r']] eqn:E2; cbn in Hl; try lia.
-    apply (Permutation_map fst) in Hv. exact Hv.
+    f_equal. apply sort_texts_perm. apply (Permutation_map fst) in Hv. exact Hv.
+Qed.
+
+Lemma whereis_perm ms ms' name : Permutation ms ms' -> modules_defining ms name = modules_defining ms' name.
+Proof.
+  intros Hp. unfold modules_defining. apply sort_texts_perm. apply Permutation_map.
+  induction Hp as [|m l l' Hp IH|a b l|l1 l2 l3 H1 IH1 H2 IH2]; cbn.
+  - constructor.
+  - destruct (assoc name (mod_defs m)); [constructor|]; exact IH.
+  - destruct (assoc name (mod_defs a)), (assoc name (mod_defs b)); try apply Permutation_refl. constructor.
+  - eapply Permutation_trans; eassumption.
 Qed.
 
 Lemma find_module_In name ms m : find_module name ms = Some m -> In m ms /\ mod_name m = name.
